@@ -39,7 +39,8 @@ def _start(machine, gen):
 
 def _write_cfg(d, cfg):
     path = os.path.join(d, 'opcfg.json')
-    full = {'instrument': {'telescope': {'total_arrays': 1, 'max_ingest_resources': 1,
+    full = {'timestep': cfg.get('timestep', 'seconds'),
+            'instrument': {'telescope': {'total_arrays': 1, 'max_ingest_resources': 1,
                                          'pipelines': {}, 'observations': []}},
             'cluster': {'header': {}, 'system': {'resources': cfg['machines'], 'system_bandwidth': 1.0}},
             'buffer': {'hot': cfg.get('hot', {'capacity': 100, 'max_ingest_rate': 10}),
@@ -447,7 +448,8 @@ def gen_buffer_case(seed, depth=10):
             ops.append(['probe', rng.choice([-2, -1, 0, 0, 1, 1, 2, 3])])
         else:
             ops.append([k])
-    return {'kind': 'buffer_ops', 'cfg': {'machines': {'m0': {'flops': 1, 'compute_bandwidth': 1}},
+    return {'kind': 'buffer_ops', 'cfg': {'timestep': rng.choice(['seconds'] * 6 + ['minutes', 3, 5, 'Minutes']),
+                                          'machines': {'m0': {'flops': 1, 'compute_bandwidth': 1}},
                                           'hot': {'capacity': hot_cap, 'max_ingest_rate': hot_rate},
                                           'cold': {'capacity': cold_cap, 'max_data_rate': cold_rate}}, 'ops': ops}
 
@@ -468,7 +470,10 @@ class BufferMachine(object):
         self.hot, self.cold = self.buf.hot[0], self.buf.cold[0]
         c = case['cfg']
         self.hcap, self.ccap = c['hot']['capacity'], c['cold']['capacity']
-        self.hrate, self.crate = c['hot']['max_ingest_rate'], c['cold']['max_data_rate']
+        from .scenario import unit_factor as _uf
+        k_ = _uf(c.get('timestep', 'seconds'))
+        # per-timestep rates (a negative cold rate - real-time mode - stays negative after scaling)
+        self.hrate, self.crate = c['hot']['max_ingest_rate'] * k_, c['cold']['max_data_rate'] * k_
         self.rate = min(self.hrate, self.crate) if self.crate > 0 else float('inf')
         # model
         self.m_hot = []          # names stored in hot
@@ -634,6 +639,9 @@ class BufferMachine(object):
                 return
             if k in ('ingest', 'overrate'):
                 rate, dur = op[1], op[2]
+                if k == 'overrate':
+                    # above the limit of *this* configuration (the limit is per timestep)
+                    rate = self.hrate + max(1, op[1] - self.case['cfg']['hot']['max_ingest_rate'])
                 self.nobs += 1
                 name = 'b%d' % self.nobs
                 ob = Observation(name, 0, dur, 1, None, rate)
